@@ -21,6 +21,7 @@ import (
 	"github.com/nspcc-dev/neo-go/pkg/core/transaction"
 	"github.com/nspcc-dev/neo-go/pkg/vm/vmstate"
 
+	"verif/lib/chainx"
 	"verif/lib/vk"
 )
 
@@ -190,7 +191,15 @@ func TestCheck(t *testing.T) {
 	}
 	cov := map[string]any{}
 	// ---- layer 2 first (cheap) ----
-	runMatch(r, vk.Pick(r, 2, 3), cov)
+	only := os.Getenv("C15_ONLY") // development aid: "vm" or "match" runs one layer (never exhaustive)
+	if only != "" {
+		r.Capped()
+	}
+	if only != "vm" {
+		runMatch(r, vk.Pick(r, 2, 3), cov)
+	} else {
+		cov["match_evaluations"], cov["match_trees"] = 0, 0
+	}
 	fmt.Printf("layer match: trees=%v evaluations=%v elapsed=%.0fs\n", cov["match_trees"], cov["match_evaluations"], r.Elapsed())
 
 	// ---- layer 1 ----
@@ -222,6 +231,9 @@ func TestCheck(t *testing.T) {
 		builts[i] = b
 	}
 	plans := makePlans(r, chains)
+	if only == "match" {
+		plans = nil
+	}
 	var invocations, evals, cwTrue, cwFalse, undecided, contRuns, stateCount vk.Counter
 	ctxSet := vk.NewSet()
 	cells := vk.NewSet()
@@ -238,7 +250,15 @@ func TestCheck(t *testing.T) {
 			b := builts[ci]
 			w := <-pool
 			defer func() { pool <- w }()
-			fails, st := runJob(w, b, cfgs, p.Cont)
+			var fails []mismatch
+			var st *evalStats
+			if err := chainx.Try(func() { fails, st = runJob(w, b, cfgs, p.Cont) }); err != nil {
+				// a panic outside the VM: the replica may be poisoned, replace it
+				fails, st = []mismatch{{What: "harness-panic", Slot: -1, Detail: err.Error()}}, &evalStats{}
+				if nw, e := newWorld(); e == nil {
+					w = nw
+				}
+			}
 			invocations.Inc()
 			for _, f := range b.Frames {
 				if f.Kind != "G" {
@@ -275,7 +295,7 @@ func TestCheck(t *testing.T) {
 				} else if m.Query == fixedLabel {
 					f.Cfg = "fixed signer (account = contract B): " + fixedCfg.String()
 				}
-				q := strings.TrimLeft(m.Query, "s0123456789")
+				q := queryKind(m.Query)
 				class := fmt.Sprintf("%s:%s:%s>%s:%s:%s", m.What, scope, m.Got, m.Want, m.Where, q)
 				mu.Lock()
 				perClass[class]++
@@ -290,10 +310,10 @@ func TestCheck(t *testing.T) {
 				}
 				cfgKey := f.Cfg
 				if cfgKey == "" {
-					cfgKey = "batch" + fmt.Sprint(bi) + "of" + p.Name
+					cfgKey = fmt.Sprintf("signers=%s#%d", p.Name, bi)
 				}
 				r.Outcome("vm:MISMATCH:" + m.What)
-				r.Violation(fmt.Sprintf("%s:%s:%s:lvl%d:%s%s:%s", layer, cfgKey, b.Chain, m.Frame, m.What, q, m.Got), f)
+				r.Violation(fmt.Sprintf("%s:%s:%s:lvl%d:%s:%s:got-%s", layer, cfgKey, b.Chain, m.Frame, m.What, q, m.Got), f)
 			}
 		})
 		planInfo[p.Name] = map[string]any{"configs": len(p.Cfgs), "transactions": nb, "chains": len(p.Chains), "invocations_planned": nj, "invocations_done": done}
